@@ -757,6 +757,9 @@ class WheelTickInput(MessagePayload):
 
     _STRUCT = struct.Struct('<4I B 3x')
 
+    # The device overwrites details.p1_time of its inputs; output messages derived from this class keep it.
+    _DISREGARD_P1_TIME = True
+
     def __init__(self):
         ## Measurement timestamps, if available. See @ref measurement_messages.
         self.details = MeasurementDetails()
@@ -806,8 +809,9 @@ class WheelTickInput(MessagePayload):
         initial_offset = offset
 
         offset += self.details.unpack(buffer, offset)
-        # Disregard any user-specified P1 timestamps in input data.
-        self.details.p1_time = Timestamp()
+        if self._DISREGARD_P1_TIME:
+            # Disregard any user-specified P1 timestamps in input data.
+            self.details.p1_time = Timestamp()
 
         (self.front_left_wheel_ticks,
          self.front_right_wheel_ticks,
@@ -852,6 +856,7 @@ Wheel Tick Input @ {str(self.details.p1_time)}
 class RawWheelTickOutput(WheelTickInput):
     MESSAGE_TYPE = MessageType.RAW_WHEEL_TICK_OUTPUT
     MESSAGE_VERSION = 0
+    _DISREGARD_P1_TIME = False
 
     def __str__(self):
         return super().__str__().replace('Wheel Tick Input', 'Raw Wheel Tick Output')
@@ -869,6 +874,9 @@ class VehicleTickInput(MessagePayload):
     MESSAGE_VERSION = 0
 
     _STRUCT = struct.Struct('<I B 3x')
+
+    # The device overwrites details.p1_time of its inputs; output messages derived from this class keep it.
+    _DISREGARD_P1_TIME = True
 
     def __init__(self):
         ## Measurement timestamps, if available. See @ref measurement_messages.
@@ -907,8 +915,9 @@ class VehicleTickInput(MessagePayload):
         initial_offset = offset
 
         offset += self.details.unpack(buffer, offset)
-        # Disregard any user-specified P1 timestamps in input data.
-        self.details.p1_time = Timestamp()
+        if self._DISREGARD_P1_TIME:
+            # Disregard any user-specified P1 timestamps in input data.
+            self.details.p1_time = Timestamp()
 
         (self.tick_count,
          gear_int) = \
@@ -950,6 +959,7 @@ Vehicle Tick Input @ {str(self.details.p1_time)}
 class RawVehicleTickOutput(VehicleTickInput):
     MESSAGE_TYPE = MessageType.RAW_VEHICLE_TICK_OUTPUT
     MESSAGE_VERSION = 0
+    _DISREGARD_P1_TIME = False
 
     def __str__(self):
         return super().__str__().replace('Vehicle Tick Input', 'Raw Vehicle Tick Output')
